@@ -14,6 +14,8 @@ import (
 	"log"
 	"os"
 	"strings"
+	"sync"
+	"time"
 
 	. "verifharness/common"
 	"verifharness/connsim"
@@ -64,6 +66,7 @@ func gen(a Args, out *Out) {
 		{6, connsim.FreeOverflowThenShutdown},
 		{8, connsim.FreeReentrantConsumer},
 		{4, connsim.FreePhases},
+		{4, connsim.FreeZeroCapacities},
 	}
 	var jobs []job
 	var ins []Sx
@@ -112,9 +115,18 @@ func gen(a Args, out *Out) {
 		jobs = append(jobs, job{"listener-backlog-full", nil})
 		ins = append(ins, Ints(2, int64(rl.Range(1, 2)), 140, 0, int64(rl.Next()>>2)))
 	}
-	results := connsim.RunBatch(ins)
-	for i, j := range jobs {
-		out.Case(j.kind, true, ins[i], results[i].Obs)
+	// every case is recorded as soon as its scenario has completed (a run that is cut short still
+	// carries what it found); no new scenario process is started once the budget is used up
+	budget := 240 * time.Second
+	if a.Thorough() {
+		budget = 40 * time.Minute
+	}
+	var emu sync.Mutex
+	emit := func(i int, r connsim.Result) {
+		emu.Lock()
+		defer emu.Unlock()
+		j := jobs[i]
+		out.Case(j.kind, true, ins[i], r.Obs)
 		if c := j.cfg; c != nil {
 			out.CountN("senders", len(c.Senders))
 			out.CountN("closers", len(c.Closers))
@@ -126,7 +138,7 @@ func gen(a Args, out *Out) {
 				}
 			}
 			for _, it := range c.Input {
-				out.Count([]string{"peer:frame", "peer:garbage", "peer:eof", "peer:rst", "peer:truncated", "peer:badlen", "peer:split-frame", "peer:coalesced", "peer:coalesced"}[it.Kind])
+				out.Count([]string{"peer:frame", "peer:garbage", "peer:eof", "peer:rst", "peer:truncated", "peer:badlen", "peer:split-frame", "peer:coalesced", "peer:coalesced", "peer:partial-frame"}[it.Kind])
 			}
 			if c.Ecap < 0 {
 				out.Count("errchan:nil")
@@ -136,9 +148,9 @@ func gen(a Args, out *Out) {
 				out.Count("errchan:buffered")
 			}
 		} else if j.kind == "burst-race" {
-			out.CountN("burst-trials", results[i].Obs.At(0).AsInt())
+			out.CountN("burst-trials", r.Obs.At(0).AsInt())
 		}
-		for _, n := range results[i].Notes {
+		for _, n := range r.Notes {
 			switch {
 			case strings.HasPrefix(n, "stuck:"):
 				out.Count("stuck-state-established")
@@ -151,5 +163,9 @@ func gen(a Args, out *Out) {
 				out.Note("%s: inconclusive: %s", j.kind, n)
 			}
 		}
+	}
+	if notRun := connsim.RunStream(ins, budget, emit); notRun > 0 {
+		out.CountN("scenarios-not-run-budget-exhausted", notRun)
+		out.Note("the generator's time budget (%v) was used up: %d scenarios were not run", budget, notRun)
 	}
 }
